@@ -98,18 +98,22 @@ Extract(rec, loc) ==
     LET w == TransWalk(loc)
     IN  [k \in 1..Len(w) |-> IF loc.strand = -1 THEN Comp(rec[w[k] + 1]) ELSE rec[w[k] + 1]]
 
-(* verdict for one call scan(s, d, off, min, rl) = r (a sequence of locations); O = OrfsOf(s) is
-   passed in so that a bundle of calls on one string computes it once *)
-ScanFailedWith(O, s, d, off, min, rl, r) ==
+(* verdict for one call scan(s, d, off, min, rl) = r (a sequence of locations): the first clause
+   that fails, "ok" if none; O = OrfsOf(s) is passed in so that a bundle of calls on one string
+   computes it once *)
+ScanClause(O, s, d, off, min, rl, r) ==
     LET n == Len(s)
         W == {TransWalk(r[i]) : i \in DOMAIN r}
         WalkOf(o) == OrfWalk(n, d, off, rl, o)
-    IN  (IF \A i \in DOMAIN r : PartsOK(rl, r[i]) THEN {} ELSE {"location_well_formed"})
-        \cup (IF \A i \in DOMAIN r : r[i].strand = d THEN {} ELSE {"strand_is_search_direction"})
-        \cup (IF {WalkOf(o) : o \in {x \in O : OrfLen(x) > min}} \subseteq W THEN {} ELSE {"every_orf_reported"})
-        \cup (IF W \subseteq {WalkOf(o) : o \in O} THEN {} ELSE {"only_orfs_reported"})
-        \cup (IF \A w \in W : Len(w) >= min THEN {} ELSE {"shorter_than_minimum_not_reported"})
-        \cup (IF Cardinality(W) = Len(r) THEN {} ELSE {"each_orf_reported_once"})
+    IN  IF ~\A i \in DOMAIN r : PartsOK(rl, r[i]) THEN "location_well_formed"
+        ELSE IF ~\A i \in DOMAIN r : r[i].strand = d THEN "strand_is_search_direction"
+        ELSE IF ~({WalkOf(o) : o \in {x \in O : OrfLen(x) > min}} \subseteq W) THEN "every_orf_reported"
+        ELSE IF ~(W \subseteq {WalkOf(o) : o \in O}) THEN "only_orfs_reported"
+        ELSE IF ~\A w \in W : Len(w) >= min THEN "shorter_than_minimum_not_reported"
+        ELSE IF Cardinality(W) # Len(r) THEN "each_orf_reported_once"
+        ELSE "ok"
+ScanFailedWith(O, s, d, off, min, rl, r) ==
+    LET c == ScanClause(O, s, d, off, min, rl, r) IN IF c = "ok" THEN {} ELSE {c}
 ScanFailed(s, d, off, min, rl, r) == ScanFailedWith(OrfsOf(s), s, d, off, min, rl, r)
 
 (* --- translation -------------------------------------------------------------- *)
@@ -157,7 +161,10 @@ GapsFailed(genes, ws, we, min, pad, gaps) ==
 (* parts before joining the two halves).                                               *)
 AreaBases(L, area) == IF Len(area.parts) = 0 THEN 0..(L - 1) ELSE Bases(area)
 AreaWalk(L, area) == IF Len(area.parts) = 0 THEN [k \in 1..L |-> k - 1] ELSE Walk(area)
-ExtraFailed(rec, genes, area, min, ovl, found) ==
+(* more than ovl consecutive bases (around the ring on a circular record) in C: the allowed overlap is
+   per gap boundary, an ORF wrapping round a small ring may touch the same gene at both of its ends *)
+LongSharedRun(C, L, circ, ovl) == \E b \in C : \A k \in 0..ovl : (IF circ THEN (b + k) % L ELSE b + k) \in C
+ExtraFailed(rec, circ, genes, area, min, ovl, found) ==
     LET L == Len(rec)
         X(i) == Extract(rec, found[i].loc)
         aw == AreaWalk(L, area)
@@ -171,7 +178,7 @@ ExtraFailed(rec, genes, area, min, ovl, found) ==
         \cup (IF \A i \in DOMAIN found : PartsOK(L, found[i].loc) => IsOrfString(X(i)) THEN {} ELSE {"extracts_to_an_orf"})
         \cup (IF \A i \in DOMAIN found : Len(TransWalk(found[i].loc)) >= min THEN {} ELSE {"shorter_than_minimum_not_reported"})
         \cup (IF \A i \in DOMAIN found : Bases(found[i].loc) \subseteq AreaBases(L, area) THEN {} ELSE {"inside_searched_area"})
-        \cup (IF \A i \in DOMAIN found : \A g \in genes : Cardinality(Bases(found[i].loc) \cap Bases(g)) <= ovl
+        \cup (IF \A i \in DOMAIN found : \A g \in genes : ~LongSharedRun(Bases(found[i].loc) \cap Bases(g), L, circ, ovl)
               THEN {} ELSE {"in_gap_up_to_allowed_overlap"})
         \cup (IF \A i \in DOMAIN found : (PartsOK(L, found[i].loc) /\ IsOrfString(X(i))) => found[i].tr = ProteinOf(X(i))
               THEN {} ELSE {"translation_matches_location"})
